@@ -54,7 +54,7 @@ def cases_from_edges(edges, rng):
     return paths, [cases[k] for k in sorted(cases)]
 
 
-def leg_r(wd, tier, binary, verdict, stub="", cfg=None, only=None):
+def leg_r(wd, tier, binary, verdict, stub="", cfg=None, only=None, tag=""):
     cfg = cfg or ("Renter_edges_quick.cfg" if tier == "quick" else "Renter_edges_thorough.cfg")
     r = vlib.run_tlc(wd, "MCRenter", cfg, workers=1, timeout=900)
     vlib.tlc_must_pass(r, "Renter edge export")
@@ -72,11 +72,11 @@ def leg_r(wd, tier, binary, verdict, stub="", cfg=None, only=None):
         sum(1 for c in cases if len(c["faults"]) == 1 and c["faults"][0]["how"] != "random"),
         sum(1 for c in cases if len(c["faults"]) > 1),
         sum(1 for c in cases if c["faults"] and c["faults"][0]["how"] == "random"), covered))
-    inp = os.path.join(wd, "replay_in.json")
+    inp = os.path.join(wd, "replay_in%s.json" % ("-" + tag if tag else ""))
     json.dump({"cases": cases, "stub": stub}, open(inp, "w"))
-    trace = "rentertrace%s.ndjson" % ("-" + stub if stub else "")
+    trace = "rentertrace%s%s.ndjson" % ("-" + stub if stub else "", "-" + tag if tag else "")
     res = vlib.go_run(binary, "TestReplay", wd, env={"VERIF_IN": inp, "VERIF_TRACE": trace}, timeout=1500,
-                      tag="TestReplay" + ("-" + stub if stub else ""))
+                      tag="TestReplay" + ("-" + stub if stub else "") + ("-" + tag if tag else ""))
     verdict.add_all(res["mismatches"])
     cnt = res["counts"]
     if res["evaluations"] != len(cases):
@@ -166,6 +166,18 @@ def run(tier):
     ms = leg_m(wd, tier)
     rr = leg_r(wd, tier, binary, verdict)
     tt = leg_t(wd, rr, verdict, flagged=rr["flagged"])
+    if tier == "thorough":
+        # second pass: all triples of faults on disjoint fields (one parameter variant)
+        r3 = leg_r(wd, tier, binary, verdict, cfg="Renter_edges_triples.cfg", only=lambda c: len(c["faults"]) == 3, tag="triples")
+        t3 = leg_t(wd, r3, verdict, tag="t3", flagged=r3["flagged"])
+        for k in ("states", "edges", "paths", "covered", "cases", "steps", "distinct"):
+            rr[k] += r3[k]
+        rr["full"] = rr["full"] and r3["full"]
+        for k, v in r3["counts"].items():
+            rr["counts"][k] = rr["counts"].get(k, 0) + v
+        rr["case_list"] += r3["case_list"]; rr["notes"] += r3["notes"]
+        for k in ("events", "rejected", "reported_by_harness", "trace_states"):
+            tt[k] += t3[k]
     rc = verdict.finish()
     cnt = rr["counts"]
     nontrivial = sum(1 for c in rr["case_list"] if c["faults"] and not c["info"])
